@@ -43,10 +43,12 @@ static const Fam FAMS[W_NFAM] = {
   {"hamming", true, nullptr, {0}, {}},
   {"blackman", true, nullptr, {0}, {}},
   {"blackmanharris", true, nullptr, {0}, {}},
-  {"gauss", true, "alpha", {0.5, 1, 2.5, 4, 6}, {0.75, 1.5, 2, 3, 3.5, 5, 5.5}},
-  {"tukey", false, "r", {-0.5, 0, 0.1, 0.25, 0.5, 0.75, 0.99, 1, 1.5},
+  {"gauss", true, "alpha", {0.5, 1, 2.5, 4, 6, 1e-6, 1e-4, 1e-2},   // incl. tiny but non-zero
+   {0.75, 1.5, 2, 3, 3.5, 5, 5.5}},
+  {"tukey", false, "r", {-0.5, 0, 0.1, 0.25, 0.5, 0.75, 0.99, 1, 1.5, 1e-6, 1e-3},
    {-1e-9, 1e-9, 0.01, 1.0 / 3, 0.6, 0.9, 0.999999, 1.000001, 1.25}},
-  {"kaiser", false, "beta", {0, 0.5, 1, 2, 5, 8, 10, 14, 20, 30, 38, 40}, {3, 6, 7.5, 12, 25, 45, 50, 60}},
+  {"kaiser", false, "beta", {0, 0.5, 1, 2, 5, 8, 10, 14, 20, 30, 38, 40, 1e-6, 1e-5, 1e-4, 2.4e-4, 4e-4, 1e-3, 5e-3, 0.02, 0.04},
+   {3, 6, 7.5, 12, 25, 45, 50, 60}},
 };
 
 // kaiser argument s_i = sqrt(1 - t^2), t = (2i - (n-1)) / (n-1), computed as sqrt((1-t)(1+t))
